@@ -22,7 +22,7 @@ def make_jobs(prop, r, n, quick):
         p = progs.random_prog(r, nfn=nfn, features=feats)
         nops = r.randint(5, 9)
         ops = progs.random_ops(r, nfn, nops, ctx=(prop in ("C16", "C10") or r.random() < 0.3), batch=(prop != "C16" or r.random() < 0.3),
-                               par=(0.25 if prop in ("C02", "C10") and i % 3 == 0 else 0.0))
+                               par=(0.25 if prop in ("C02", "C10", "C16") and i % 3 == 0 else 0.0))
         if prop == "C15":
             ops = [o for o in ops if o["op"] != "Call" or r.random() < 0.5]
         if prop == "C16" and r.random() < 0.5:
@@ -135,7 +135,7 @@ def ext_jobs(r, n):
     return jobs
 
 
-def validate_ext(rep, jobs, traces, wd):
+def validate_ext(rep, jobs, traces, wd, as_violation=False):
     payload = [{"cfg": {"prog": t["cfg"]["prog"], "prop": "EXT", "store": "real", "runner": "local"}, "ev": t["ev"]} for t in traces]
     rej, vr = tlc.validate_traces("TraceRunner", payload, wd, timeout=2400)
     rep.add_tlc(vr, "trace validation TraceRunner (forget_exceptions_recursively, beyond the listed properties)")
@@ -150,6 +150,18 @@ def validate_ext(rep, jobs, traces, wd):
             prev = len(e.get("mem", []))
     rep.cov["ext_forget_exceptions_events_that_forgot_something"] = eff
     rep.cov["ext_nonconformances"] = len(rej)
+    if rej and as_violation:
+        # C02: "forgetting a call makes exactly that call run again" - forget_exceptions_recursively forgets exactly the failed
+        # calls beneath a failed call
+        for rj in rej:
+            t = traces[rj["tid"] - 1]
+            e = t["ev"][rj["prefix"]] if rj["prefix"] < len(t["ev"]) else {}
+            facts = {"property": "C02", "op": e.get("op"), "mod": "", "why": sorted(rj["why"]), "backend": t["cfg"]["backend"].get("backend"),
+                     "exc": e.get("exc", "")[:120], "out": ""}
+            rep.violation(facts, {"job": jobs[rj["tid"] - 1], "accepted_prefix": rj["prefix"],
+                                  "failing_event": {k: v for k, v in e.items() if k != "mem"}, "mem": e.get("mem"),
+                                  "failed_clauses": sorted(rj["why"])})
+        return
     if rej:
         print("NONCONFORMANCE: %d of %d histories with forget_exceptions_recursively() diverge from ProgSem.ExcClosure (informational)"
               % (len(rej), len(payload)))
@@ -253,6 +265,9 @@ def run(prop, tier):
             xt = common.run_jobs("runner_worker.py", xj, wd, timeout=2400)
             validate_ext(rep, xj, xt, wd)
         if prop == "C02":
+            xj = ext_jobs(r, 40 if quick else 500)
+            xt = common.run_jobs("runner_worker.py", xj, wd, timeout=2400)
+            validate_ext(rep, xj, xt, wd, as_violation=True)
             run_values(rep, r, wd, quick)
         rep.assumptions += ["the reference semantics ProgSem.tla is the definition of 'what the program does'; generated bodies "
                             "are deterministic functions of their arguments and sub-results"]
